@@ -289,9 +289,11 @@ class IpaddrOrHostname(RegularExpressionConversion):
                 r"(\d|[01]?\d\d|2[0-4]\d|25[0-5])\."    # ipaddr cont'd
                 r"(\d|[01]?\d\d|2[0-4]\d|25[0-5])\."    # ipaddr cont'd
                 r"(\d|[01]?\d\d|2[0-4]\d|25[0-5])$)"    # ipaddr cont'd
-                r"|([A-Za-z_][-A-Za-z0-9_.]*[-A-Za-z0-9_])"  # or hostname
-                # or superset of IPv6 addresses (requiring at least one colon)
+                # or superset of IPv6 addresses (requiring at least one colon);
+                # tried before the hostname so that an address starting with
+                # a hex letter is not cut short as a hostname
                 r"|([0-9A-Fa-f:.]+:[0-9A-Fa-f:.]*)"
+                r"|([A-Za-z_][-A-Za-z0-9_.]*[-A-Za-z0-9_])"  # or hostname
                 )
         RegularExpressionConversion.__init__(self, expr)
 
